@@ -331,7 +331,7 @@ class NF:
     def _e_Constant(self, e, sc, at, depth):
         v = e.value
         if isinstance(v, bool):
-            return Poly.atom(str(v))
+            return Poly.const(int(v))  # False == 0, True == 1 in arithmetic (`(1 - terminated)` with a False default)
         if isinstance(v, int):
             return Poly.const(v)
         if isinstance(v, float):
